@@ -2,11 +2,12 @@
 //! third-party crates and whichever simulator is running (DESIGN §5.1, §6).
 //!
 //! Outside a simulation every call is a no-op or plain `std` behaviour, so the
-//! same binaries can run single-threaded Engine K scenarios.
+//! same binaries can run single-threaded Engine K scenarios and real threads.
 
 use std::{
     cell::Cell,
     sync::atomic::{AtomicPtr, AtomicU64, Ordering},
+    time::Duration,
 };
 
 pub struct Hooks {
@@ -16,6 +17,14 @@ pub struct Hooks {
     pub point: fn(u32),
     /// the caller spins waiting for another thread: somebody else must run
     pub yield_now: fn(),
+    /// block the calling logical thread until unparked (token semantics) or, if a timeout is given,
+    /// until the simulated clock passed it
+    pub park: fn(Option<Duration>),
+    pub unpark: fn(u64),
+    /// start a logical thread
+    pub spawn: fn(Box<dyn FnOnce() + Send + 'static>),
+    /// simulated monotonic clock
+    pub now: fn() -> Duration,
 }
 
 static HOOKS: AtomicPtr<Hooks> = AtomicPtr::new(std::ptr::null_mut());
@@ -30,6 +39,13 @@ fn hooks() -> Option<&'static Hooks> {
     if p.is_null() { None } else { Some(unsafe { &*p }) }
 }
 
+#[inline]
+fn sim() -> Option<(&'static Hooks, u64)> {
+    let h = hooks()?;
+    let id = (h.thread_id)()?;
+    Some((h, id))
+}
+
 static NEXT_OS_ID: AtomicU64 = AtomicU64::new(1);
 thread_local! {
     static OS_ID: Cell<u64> = const { Cell::new(0) };
@@ -37,10 +53,8 @@ thread_local! {
 
 /// Identity of the calling (logical) thread. Simulated threads live in their own id space.
 pub fn thread_id() -> u64 {
-    if let Some(h) = hooks() {
-        if let Some(id) = (h.thread_id)() {
-            return (1 << 40) | id;
-        }
+    if let Some((_, id)) = sim() {
+        return (1 << 40) | id;
     }
     OS_ID.with(|c| {
         if c.get() == 0 {
@@ -51,7 +65,7 @@ pub fn thread_id() -> u64 {
 }
 
 pub fn in_simulation() -> bool {
-    hooks().map(|h| (h.thread_id)().is_some()).unwrap_or(false)
+    sim().is_some()
 }
 
 #[inline]
@@ -63,9 +77,91 @@ pub fn point(site: u32) {
 
 #[inline]
 pub fn yield_now() {
-    match hooks() {
-        Some(h) if (h.thread_id)().is_some() => (h.yield_now)(),
-        _ => std::thread::yield_now(),
+    match sim() {
+        Some((h, _)) => (h.yield_now)(),
+        None => std::thread::yield_now(),
+    }
+}
+
+/// A handle to a thread that can be unparked: an OS thread, or a logical thread of the simulation.
+#[derive(Clone, Debug)]
+pub enum ThreadHandle {
+    Os(std::thread::Thread),
+    Sim(u64),
+}
+
+impl ThreadHandle {
+    pub fn current() -> Self {
+        match sim() {
+            Some((_, id)) => ThreadHandle::Sim(id),
+            None => ThreadHandle::Os(std::thread::current()),
+        }
+    }
+
+    pub fn unpark(&self) {
+        match self {
+            ThreadHandle::Os(t) => t.unpark(),
+            ThreadHandle::Sim(id) => {
+                if let Some(h) = hooks() {
+                    (h.unpark)(*id)
+                }
+            }
+        }
+    }
+}
+
+pub fn park() {
+    match sim() {
+        Some((h, _)) => (h.park)(None),
+        None => std::thread::park(),
+    }
+}
+
+pub fn park_timeout(d: Duration) {
+    match sim() {
+        Some((h, _)) => (h.park)(Some(d)),
+        None => std::thread::park_timeout(d),
+    }
+}
+
+pub fn spawn(f: Box<dyn FnOnce() + Send + 'static>) {
+    match sim() {
+        Some((h, _)) => (h.spawn)(f),
+        None => {
+            std::thread::spawn(f);
+        }
+    }
+}
+
+/// A monotonic instant that follows the simulated clock inside a simulation.
+#[derive(Clone, Copy, Debug, PartialEq, Eq, PartialOrd, Ord)]
+pub enum Instant {
+    Real(std::time::Instant),
+    Sim(Duration),
+}
+
+impl Instant {
+    pub fn now() -> Self {
+        match sim() {
+            Some((h, _)) => Instant::Sim((h.now)()),
+            None => Instant::Real(std::time::Instant::now()),
+        }
+    }
+
+    pub fn checked_add(&self, d: Duration) -> Option<Instant> {
+        match self {
+            Instant::Real(i) => i.checked_add(d).map(Instant::Real),
+            Instant::Sim(t) => t.checked_add(d).map(Instant::Sim),
+        }
+    }
+
+    pub fn checked_duration_since(&self, earlier: Instant) -> Option<Duration> {
+        match (self, earlier) {
+            (Instant::Real(a), Instant::Real(b)) => a.checked_duration_since(b),
+            (Instant::Sim(a), Instant::Sim(b)) => a.checked_sub(b),
+            // instants of different worlds never meet in practice; treat as "already due"
+            _ => None,
+        }
     }
 }
 
@@ -78,4 +174,9 @@ pub extern "Rust" fn __compio_verif_point(site: u32) {
 #[unsafe(no_mangle)]
 pub extern "Rust" fn __compio_verif_yield() {
     yield_now()
+}
+
+#[unsafe(no_mangle)]
+pub extern "Rust" fn __compio_verif_spawn(f: Box<dyn FnOnce() + Send + 'static>) {
+    spawn(f)
 }
